@@ -33,30 +33,28 @@ def uni2tex(text):
         0x0306: "u",
         0x030C: "v",
     }
-    out = ""
-    txt = tuple(text)
-    i = 0
-    while i < len(txt):
-        char = text[i]
+    out = []
+    for char in text:
         code = ord(char)
 
-        # combining marks
-        if unicodedata.category(char) in ("Mn", "Mc") and code in accents:
-            out += "\\%s{%s}" % (accents[code], txt[i + 1])
-            i += 1
-        # precomposed characters
-        elif unicodedata.decomposition(char):
-            base, acc = unicodedata.decomposition(char).split()
-            acc = int(acc, 16)
-            base = int(base, 16)
+        # combining marks: the accent applies to the preceding character
+        if (
+            unicodedata.category(char) in ("Mn", "Mc")
+            and code in accents
+            and out
+        ):
+            out[-1] = "\\%s{%s}" % (accents[code], out[-1])
+            continue
+
+        # precomposed characters (canonical base + accent pairs only)
+        parts = unicodedata.decomposition(char).split()
+        if len(parts) == 2 and not parts[0].startswith("<"):
+            base, acc = int(parts[0], 16), int(parts[1], 16)
             if acc in accents:
-                out += "\\%s{%s}" % (accents[acc], chr(base))
-            else:
-                out += char
-        else:
-            out += char
-        i += 1
-    return out
+                out.append("\\%s{%s}" % (accents[acc], chr(base)))
+                continue
+        out.append(char)
+    return "".join(out)
 
 
 def get_latex_fontdoc(text, fontsize="11pt", preamble=""):
